@@ -862,7 +862,11 @@ def rule_export_every_statement(ctx: Ctx) -> None:
             if isinstance(g, (ast.If, ast.While, ast.IfExp)):
                 tests.append(g.test)
             g = parent(g)
-        hist = [t for t in tests if any(isinstance(x, ast.Name) and x.id == L for x in ast.walk(t))]
+        # a test on the *content* of the lines already written: an element of the list (`out[-1]`) or membership in it; emptiness / length
+        # tests (a header written once) are not about the statement being emitted
+        hist = [t for t in tests if any((isinstance(x, ast.Subscript) and norm(x.value) == L) or
+                                        (isinstance(x, ast.Compare) and any(isinstance(o, (ast.In, ast.NotIn)) for o in x.ops) and any(norm(c_) == L for c_ in x.comparators))
+                                        for x in ast.walk(t))]
         n += 1
         if hist:
             ctx.fail("export.every-statement", m, c,
@@ -903,7 +907,14 @@ def rule_lookahead_guard(ctx: Ctx) -> None:
             continue
         n += 1
         mx = max(offs)
-        if K == mx:
+        # splitting the script at ';' leaves one trailing blank element; unless blank statements are filtered out of the list, a guard that asks
+        # for one statement more than it reads is still satisfied by a block at the very end
+        Xn = X.split(".")[-1]
+        filtered = any(isinstance(a, ast.Assign) and norm(a.targets[0]) == Xn and isinstance(a.value, (ast.ListComp, ast.Call)) and
+                       (any(g_.ifs for c_ in ast.walk(a.value) if isinstance(c_, ast.ListComp) for g_ in c_.generators) or "filter" in norm(a.value))
+                       for a in ast.walk(fn))
+        slack = 0 if filtered else 1
+        if mx <= K <= mx + slack:
             ctx.ok("parse.lookahead-guard", m, i, what=f"look-ahead of {mx} statements under `{short(t)}`")
         elif K > mx:
             ctx.fail("parse.lookahead-guard", m, i,
@@ -956,7 +967,7 @@ def run(ctx: Ctx) -> None:
 
 KNOCKOUTS = [
     Knockout("export-drops-repeated-statement", BASE, sub_once('            if gate_application != "":\n                openqasm_str.append(gate_application)', '            if gate_application != "" and gate_application != openqasm_str[-1]:\n                openqasm_str.append(gate_application)'), "export.every-statement", "already written"),
-    Knockout("import-lookahead-guard-too-strong", DAG, sub_once("                if i + 3 < len(qasm_commands):", "                if i + 4 < len(qasm_commands):"), "parse.lookahead-guard", "last statement"),
+    Knockout("import-lookahead-guard-too-strong", DAG, sub_once("                if i + 3 < len(qasm_commands):", "                if i + 5 < len(qasm_commands):"), "parse.lookahead-guard", "last statement"),
     Knockout("wrapper-info-stored-on-the-class", OPS, sub_once("        self._openqasm_info = oq_lib.single_qubit_wrapper_info(operations)\n", "        type(self)._openqasm_info = oq_lib.single_qubit_wrapper_info(operations)\n"), "state.class-store", "stored on the class"),
     Knockout("defined-gate-test-by-name-length", OQ, sub_once("    if gate_name in gate_name_dict:", "    if len(gate_name) <= 1:"), "table.qasm", "membership test"),
     Knockout("classical-cz-declares-x", OQ, sub_once("    definition = sigma_z_info().definitions[0]\n\n    def usage(q_reg, q_reg_type, c_reg):\n        return (\n            f\"measure {q_reg_type[0]}{q_reg[0]}[0] -> c{c_reg[0]}[0]; \\n\"\n            f\"if (c{c_reg[0]}==1) z", "    definition = sigma_x_info().definitions[0]\n\n    def usage(q_reg, q_reg_type, c_reg):\n        return (\n            f\"measure {q_reg_type[0]}{q_reg[0]}[0] -> c{c_reg[0]}[0]; \\n\"\n            f\"if (c{c_reg[0]}==1) z"), "qasm.declares-used", "ClassicalCZ"),
